@@ -66,6 +66,12 @@ def tasks(tier):
         base = dict(M=3, alphabet=["x:T", "ok", "r:T"], handler=hd, before_sleep=bs, sleeper=sl,
                     handler_free=True, max_unknown=None, callable_kind="falsy")
         out.append({"family": "protocol-falsy-callables", "cfg": base, "entry": e, "bound": 0})
+    # the same on the virtual event loop: awaitable hooks really suspend (one loop iteration)
+    for hd, bs, e in itertools.product([None, "call"], ["call", "policy"], ASYNC):
+        cfg = dict(M=3, alphabet=["x:T", "ok", "r:T"], handler=hd, before_sleep=bs, sleeper="call",
+                   handler_free=True, max_unknown=None, bs_async=True, sleeper_async=True,
+                   loop=True)
+        out.append({"family": "protocol-awaitable-loop", "cfg": cfg, "entry": e, "bound": 0})
     # awaitables that are not coroutines (objects with __await__)
     for hd, e in itertools.product([None, "call", "policy"], ASYNC):
         cfg = dict(M=3, alphabet=["x:T", "ok", "r:T"], handler=hd, before_sleep="call",
@@ -92,6 +98,12 @@ def tasks(tier):
     cfg = dict(M=3, alphabet=["x:T"], handler="call", handler_menu=["BAD"], max_unknown=None)
     for e in ["Retry.call", "AsyncRetry.call"]:
         out.append({"family": "protocol-bad", "cfg": cfg, "entry": e, "bound": 0})
+    # delays that are not whole microseconds: DEFER reports exactly the computed delay
+    for e in SYNC + ASYNC:
+        cfg = dict(M=3, alphabet=["x:T", "ok", "r:T"], handler="call", handler_free=True,
+                   max_unknown=None, strat_menu=[1.0000003, 0.0000031], strat_free=True,
+                   before_sleep="call", sleeper="call")
+        out.append({"family": "protocol-fractional-delay", "cfg": cfg, "entry": e, "bound": 0})
     return out
 
 
@@ -109,6 +121,9 @@ def monitor(w, cfg):
     eb = effective(cfg["before_sleep"])
     es = effective(cfg["sleeper"]) or "default"
     M = cfg["M"]
+    for r in w.trace:
+        if r[0] == "overlap":
+            v.append(("c16.sleep-sequence", r[1]))
     for call in split_calls(w.trace):
         end = call.end
         atts = list(attempts(cfg, call))
